@@ -64,10 +64,13 @@ def run(C, R):
         from common import wrapper_discipline
         R.floor('C03.W wrapper-paths[%s]' % cfg, wrapper_discipline(C, R, cfg, ['sync::mutex::MutexState'], 'C03.W'), 2)
         n_r1 = n_r2 = 0
+        from rl import lift_private_callers as _lift03
         for m in entry_methods(F, CG, STATE):
             paths = E.run(m['path'])
             R.add_paths(m['path'], len(paths))
             owns = own_node_roots(F, m)
+            is_cancel = any(((F.fn(c_) or {}).get('impl_trait') or '').endswith('ops::Drop')
+                            for c_ in _lift03(F, CG, m['path'])) and bool(owns)
             for path in paths:
                 if path.exit != 'return':
                     continue
@@ -93,10 +96,12 @@ def run(C, R):
                     if not (k0 and k0 == ('eq', 'Notified')):
                         continue
                     ws = [(i, e) for i, e in enumerate(path.events) if e['k'] == 'write' and e['loc'] == sloc]
-                    if not ws:
+                    # (in the cancel transition - reached from a destructor - the notification is consumed whatever
+                    # state the node is left in: the future is gone when it returns)
+                    if not ws and not is_cancel:
                         continue
-                    last = ws[-1][1]['val']
-                    if last[0] == 'agg' and last[2] == 'Notified':
+                    last = ws[-1][1]['val'] if ws else ('agg', '', 'Notified (future dropped)', ())
+                    if ws and last[0] == 'agg' and last[2] == 'Notified' and not is_cancel:
                         continue
                     locks = [e for e in path.events if e['k'] == 'write' and loc_endswith(e['loc'], 'is_locked')
                              and e['val'] == ('const', 1)]
@@ -109,14 +114,14 @@ def run(C, R):
                              {'function': m['path'], 'transition': 'Notified -> %s' % last[2],
                               'reason': 'mutex observed locked: the next unlock hands over'})
                         continue
-                    ok, why = handover(E, F, path, ws[0][0] - 1)
+                    ok, why = handover(E, F, path, (ws[0][0] - 1) if ws else -1)
                     if ok:
                         R.ok('C03.R2', '%s|forward|%s' % (m['path'], path_cond(E, path)),
                              {'function': m['path'], 'transition': 'Notified -> %s' % last[2], 'hand_over': why})
                     else:
                         R.fail('C03.R2', [m['path'], 'notified-consumed-without-handover', path_cond(E, path)],
                                '%s: a notified waiter leaves the Notified state without locking and %s [%s]' % (
-                                   m['path'], why, path_cond(E, path)), where(F, ws[0][1]),
+                                   m['path'], why, path_cond(E, path)), where(F, ws[0][1]) if ws else '%s:%s' % (m['file'], m['line']),
                                {'trace': trace_summary(path)})
             # R6: a notified waiter that finds the mutex free takes it (otherwise the wake-up it holds is wasted
             # and, in fair mode, everybody behind it is stuck)
